@@ -407,8 +407,6 @@ class C19Quotient(QuotientWorld):
     def observe(self, step):
         if not self.claim_open or "reads" not in step:
             return
-        if len(self.model) >= self.f.size:
-            return  # reading a 100% full filter is C04's known finding territory
         f = self.f
         uni = self.cfg["uni"]
         try:
@@ -450,7 +448,7 @@ SPEC = PropSpec(
           "clear fired; distinct = event-log digests"),
     state_measure="distinct (class, set of read-call kinds)",
     assumptions=["CPython 3.12", "a raising read-only call is only counted (the property speaks about state, not about "
-                 "the call succeeding); reads of a 100% full quotient filter are left to C04's known finding"],
+                 "the call succeeding)"],
     real_components=["all structures' read paths, exports, export_c_header, set operations as non-receiver; real files"],
     stubbed_components=["export sink -> SimFile failing at a seeded write (sink_error)", "hash_function", "`random` -> SimRandom"],
 )
